@@ -10,6 +10,7 @@ import (
 	cmn "github.com/kardiachain/go-kardia/lib/common"
 	kproto "github.com/kardiachain/go-kardia/proto/kardiachain/types"
 	"github.com/kardiachain/go-kardia/types"
+	"github.com/kardiachain/go-kardia/types/evidence"
 )
 
 // The gossip model replaces the reactor's three free-running outbound
@@ -163,8 +164,31 @@ func (s *Sim) gossip() {
 	}
 }
 
+// gossipEvidence models the evidence reactor's per-peer broadcast routine: a offers b the
+// pending evidence b neither holds nor has committed, once b has reached the evidence's height
+// (the real routine waits for that too). The message is the reactor's own encoding and enters
+// b through the real evidence reactor's Receive.
+func (s *Sim) gossipEvidence(na, nb *kit.Node, rb *cstypes.RoundState) {
+	pend, _ := na.EvPool.PendingEvidence(1 << 20)
+	for _, ev := range pend {
+		if rb.Height <= ev.Height() || nb.EvPool.VerifIsPending(ev) || nb.EvPool.VerifIsCommitted(ev) {
+			continue
+		}
+		key := fmt.Sprintf("%d>%d/ev/%s", na.ID, nb.ID, short(ev.Hash()))
+		if t, ok := s.until[key]; ok && s.now() < t {
+			continue
+		}
+		bz, err := evidence.VerifEncodeMsg([]types.Evidence{ev})
+		if err != nil {
+			continue
+		}
+		s.schedule(&Msg{Src: na.ID, Dst: nb.ID, Ch: 0x38, Bytes: bz, Desc: fmt.Sprintf("Evidence %s h%d", short(ev.Hash()), ev.Height()), Key: key})
+	}
+}
+
 func (s *Sim) gossipPair(na, nb *kit.Node, ra, rb *cstypes.RoundState) {
 	a, b := na.ID, nb.ID
+	s.gossipEvidence(na, nb, rb)
 	switch {
 	case ra.Height == rb.Height:
 		if ra.Proposal != nil && rb.Proposal == nil && ra.Proposal.Round == rb.Round {
